@@ -37,6 +37,53 @@ class InfraError(Exception):
     """Something in the machinery (not the property) failed: exit 2."""
 
 
+def anchor_fingerprint(path):
+    """Hash of a Python source file that ignores comments, blank lines and docstrings (ast based)."""
+    import ast, hashlib
+    try:
+        tree = ast.parse(open(path, 'rb').read())
+    except (OSError, SyntaxError) as e:
+        return f'unreadable:{type(e).__name__}'
+    for node in ast.walk(tree):
+        body = getattr(node, 'body', None)
+        if isinstance(body, list) and body and isinstance(body[0], ast.Expr) and isinstance(getattr(body[0], 'value', None), ast.Constant) \
+                and isinstance(body[0].value.value, str):
+            body[0].value.value = ''
+    return hashlib.sha256(ast.dump(tree, include_attributes=False).encode()).hexdigest()[:24]
+
+
+def anchor_files(prop, plugin):
+    """The plugin's ANCHOR_FILES, else the files the property is anchored in (properties.jsonl)."""
+    files = list(getattr(plugin, 'ANCHOR_FILES', []))
+    if not files:
+        for line in open(os.path.join(VERIF, 'properties.jsonl')):
+            rec = json.loads(line)
+            if rec['id'] == prop:
+                files = [f for f in rec['anchors']['files'] if f.startswith('src/')]
+    return files
+
+
+def check_anchors(ctx, plugin):
+    """Compare the anchored source files with the fingerprints recorded when the model was written (harness/anchors.json).
+    A difference is not a violation: it only makes the quick tier spend more effort (Ctx.n) and is noted in the evidence."""
+    files = anchor_files(ctx.prop, plugin)
+    rec_path = os.path.join(VERIF, 'harness', 'anchors.json')
+    rec = json.load(open(rec_path)) if os.path.exists(rec_path) else {}
+    changed = []
+    for rel in files:
+        p = os.path.join(REPO, rel)
+        if p.endswith('.py'):
+            fp = anchor_fingerprint(p)
+        else:
+            import hashlib
+            fp = hashlib.sha256(open(p, 'rb').read()).hexdigest()[:24] if os.path.exists(p) else 'missing'
+        if rel in rec and rec[rel] != fp:
+            changed.append(rel)
+    ctx.source_changed = bool(changed)
+    ctx.extra['anchored_sources_changed_since_model_was_written'] = changed
+    return changed
+
+
 def strip_lean_comments(src: str) -> str:
     out, i, depth, n = [], 0, 0, len(src)
     while i < n:
@@ -74,10 +121,16 @@ class Ctx:
         self.t0 = time.time()
         self.proof = {'obligations': 0, 'discharged': 0, 'theorems': [], 'broken': []}
         self.extra = {}
+        self.source_changed = False
 
     # ---- budgets
     def n(self, quick, thorough):
-        return thorough if self.tier == 'thorough' else quick
+        if self.tier == 'thorough':
+            return thorough
+        if self.source_changed and isinstance(quick, int) and isinstance(thorough, int) and thorough > quick:
+            # the anchored sources differ from the tree the model was written against: look harder (bounded)
+            return min(thorough, quick * 4)
+        return quick
 
     # ---- Lean driver
     def driver_path(self, name=None):
@@ -188,6 +241,8 @@ def check_proofs(ctx, extra_modules=()):
     p = _lake(['build'] + targets)
     log = p.stdout.decode(errors='replace')
     if p.returncode != 0:
+        # the model driver does not depend on the theorems: build it on its own so the correspondence can still run
+        _lake(['build', f'drv_{prop.lower()}'])
         errs = [l for l in log.split('\n') if 'error' in l][:20]
         ctx.proof['broken'].append({'what': 'lake build ' + ' '.join(targets), 'errors': errs})
         ctx.proof['build_log_tail'] = log[-3000:]
@@ -316,6 +371,7 @@ def main(argv=None):
             ok, detail = plugin.replay(ctx, case)
             print(f'replay {prop}: {"property holds on this case" if ok else "FAILS"}: {detail}')
             return 0 if ok else 1
+        check_anchors(ctx, plugin)
         if hasattr(plugin, 'translate'):
             plugin.translate(ctx)
         proofs_ok = check_proofs(ctx, getattr(plugin, 'EXTRA_LEAN_TARGETS', ()))
